@@ -27,6 +27,7 @@ func checkC03(p *Prog, r *Report) {
 	c03MapRanges(p, r, s)
 	c03Ambient(p, r, s)
 	dispatcherRule(p, r, "C03.R7")
+	c03PartialOverlay(p, r)
 	sessionOpenRule(p, r, "C03.R8")
 }
 
@@ -1362,4 +1363,37 @@ func c03PoolKey(p *Prog, r *Report, rule string) {
 		return true
 	})
 	r.Ob("lazy-init", p.Pos(fi.Decl.Pos()), initOK, initDet+" (must be exactly 'the map is nil', before the lookup: creating it otherwise throws the cache away)")
+}
+
+// ---------------------------------------------------------------- a partially applied overlay must end the run
+
+// c03PartialOverlay: the batch-line overlay ranges over the argument MAP and returns at the first value it cannot
+// parse — the entries visited before it are applied, the ones after it are not, and which those are depends on the
+// iteration order of the map.  The range is order-insensitive only because the failure ends the run (R5 classifies
+// such returns as "failure-only").  Demanded: the caller of the overlay ends the run on its error.
+func c03PartialOverlay(p *Prog, r *Report) {
+	r.Rule("C03.R9", "an overlay that fails half way ends the run: the caller of the map-ordered batch-line overlay leads its error to a fatal exit or an error return (continuing would keep the overrides visited before the bad one and drop the ones after it — which those are changes from execution to execution)", 1)
+	fi := p.Funcs["hermes.readConfig"]
+	if fi == nil {
+		r.Ob("overlay-failure-ends-run", "-", false, "hermes.readConfig not found")
+		return
+	}
+	info := fi.Pkg.TypesInfo
+	n := 0
+	ast.Inspect(fi.Decl.Body, func(m ast.Node) bool {
+		c, ok := m.(*ast.CallExpr)
+		if !ok {
+			return true
+		}
+		if id, ok := c.Fun.(*ast.Ident); !ok || id.Name != "commandlineOverride" {
+			return true
+		}
+		n++
+		okE, why := errorLeadsToExit(info, fi.Decl.Body, c)
+		r.Ob("overlay-failure-ends-run", p.Pos(c.Pos()), okE, fmt.Sprintf("the error of the batch-line overlay ends the run: %v %s", okE, why))
+		return true
+	})
+	if n == 0 {
+		r.Ob("overlay-failure-ends-run", "-", false, "the call of the batch-line overlay was not found in the configuration reader")
+	}
 }
